@@ -522,3 +522,103 @@ def render_tokens(toks):
     if line:
         out.append(' '.join(line))
     return '\n'.join(out).replace('( ', '(').replace(' )', ')') + '\n'
+
+
+def gen_risky(rng, base_feats=None):
+    """Script biased towards the shapes in which rewrite cycles and hanging
+    substitutions live (property C03's anchors)."""
+    feats = set(base_feats or rng.sample(
+        ['int', 'bv', 'let', 'deffun', 'str', 'quant', 'real', 'empty'],
+        rng.randint(2, 4)))
+    feats |= {rng.choice(['int', 'bv'])}
+    g = Gen(rng, feats, size=rng.choice([1, 2, 3, 5]))
+    text = g.script()
+    lines = text.rstrip('\n').split('\n')
+    # insert before the trailing commands
+    tail_at = len(lines)
+    for i, ln in enumerate(lines):
+        if ln.startswith('(check-sat') or ln.startswith('(exit') or ln.startswith('(get-model'):
+            tail_at = i
+            break
+    extra_decl = []
+    extra = []
+    picks = rng.sample(range(10), rng.randint(2, 5))
+    for p in picks:
+        if p == 0:
+            extra_decl.append('(declare-const a Int)')
+            extra_decl.append('(declare-fun g (Int) Int)')
+            extra_decl.append('(define-fun f ((a Int)) Int (+ a 1))')
+            extra.append(rng.choice([
+                '(assert (= (f (g a)) 0))', '(assert (> (f (+ a 2)) (f a)))',
+                '(assert (= (f (f a)) a))'
+            ]))
+        elif p == 1:
+            extra_decl.append('(declare-const x Int)')
+            extra.append(rng.choice([
+                '(assert (let ((x (+ x 1))) (> x 0)))',
+                '(assert (let ((x (+ x 1)) (y x)) (> x y)))',
+                '(assert (let ((z (let ((x (* x 2))) x))) (= z x)))'
+            ]))
+        elif p == 2:
+            extra_decl.append('(declare-const p Bool)')
+            extra_decl.append('(declare-const q Bool)')
+            extra.append(rng.choice([
+                '(assert (= false (and p q)))', '(assert (= (or p q) false))',
+                '(assert (not (not (not p))))',
+                '(assert (= p (not (not q))))', '(assert (xor p true q))',
+                '(assert (=> p q p))'
+            ]))
+        elif p == 3:
+            extra_decl.append('(declare-const bv (_ BitVec 8))')
+            extra.append(rng.choice([
+                '(assert (= ((_ zero_extend 4) #x0f) ((_ zero_extend 4) bv)))',
+                '(assert (= #x00 bv))', '(assert (= bv (_ bv1 8)))',
+                '(assert (= #b1 (bvcomp bv #x01)))',
+                '(assert (bvult ((_ sign_extend 2) ((_ sign_extend 2) bv)) (concat #x0 bv)))',
+                '(assert (= (bvnot (bvnot bv)) (bvneg (bvneg bv))))'
+            ]))
+        elif p == 4:
+            for n in ('x', 'xx', 'x1', 'x11'):
+                extra_decl.append(f'(declare-const {n} Int)')
+            extra.append('(assert (< x xx x1 x11))')
+            extra.append('(assert (= (+ x1 x11) (* xx 2)))')
+        elif p == 5:
+            extra_decl.append('(declare-const i Int)')
+            extra.append(rng.choice([
+                '(assert (= i 0))', '(assert (= 1 i))',
+                '(assert (>= (+ i 0) (* i 1)))', '(assert (distinct i 0 1))',
+                '(assert (not (< i 0)))'
+            ]))
+        elif p == 6:
+            extra_decl.append('(declare-const s String)')
+            extra.append(rng.choice([
+                '(assert (str.contains s "ab"))',
+                '(assert (= (str.replace_all s "a" "aa") s))',
+                '(assert (= "" s))', '(assert (= (str.indexof s "x" 0) (- 1)))'
+            ]))
+        elif p == 7:
+            extra_decl.append('(declare-const r Real)')
+            extra.append(rng.choice(
+                ['(assert (= r 0.0))', '(assert (> (/ r 1.0) (- r)))']))
+        elif p == 8:
+            extra_decl.append('(declare-const |q s| Bool)')
+            extra_decl.append('(declare-const |qs| Bool)')
+            extra.append('(assert (and |q s| |qs|))')
+        elif p == 9:
+            extra_decl.append('(declare-const e Int)')
+            extra.append(rng.choice([
+                '(assert (= e ()))', '(assert (> (+ e ()) e))',
+                '(assert (let ((w ())) (= w w)))'
+            ]))
+    seen = set(lines)
+    decls = []
+    for d in extra_decl:
+        if d not in seen:
+            seen.add(d)
+            decls.append(d)
+    # declarations after the set-* prefix
+    k = 0
+    while k < len(lines) and lines[k].startswith('(set-'):
+        k += 1
+    out = lines[:k] + decls + lines[k:tail_at] + extra + lines[tail_at:]
+    return '\n'.join(out) + '\n'
